@@ -62,6 +62,14 @@ def gen(rng, tier):
                 mb[pos] = val
                 yield dict(family="byte-mutation", vars=[z], ops=["GobDecode 0 %s" % bytes(mb).hex(), "MinPrec 0"])
         yield dict(family="extended", vars=[z], ops=["GobDecode 0 %s" % (enc + bytes(rng.randint(0, 255) for _ in range(rng.randint(1, 9)))).hex()])
+        # word mutations: each 8-byte mantissa word replaced by the base, its neighbours and the ends of the word range
+        nw = (len(enc) - 10) // 8
+        for wi in range(nw):
+            for val in (B, B + 1, B - 1, 2**64 - 1, 0, B // 10, B // 10 - 1):
+                mb = bytearray(enc)
+                mb[10 + 8 * wi:18 + 8 * wi] = val.to_bytes(8, "big")
+                if bytes(mb) != enc:
+                    yield dict(family="word-mutation", vars=[z], ops=["GobDecode 0 %s" % bytes(mb).hex(), "MinPrec 0"])
     for _ in range(200 * n):
         ln = rng.choice([0, 1, 2, 5, 6, 7, 9, 10, 11, 17, 18, 19, 26, rng.randint(0, 60)])
         raw = bytearray(rng.randint(0, 255) for _ in range(ln))
